@@ -250,11 +250,14 @@ func guardsOf(p *Program, f *ssa.Function) []guard {
 		if !ok {
 			continue
 		}
-		bo, ok := iff.Cond.(*ssa.BinOp)
+		op, ox, oy, cpos, ok := cmpOf(iff.Cond)
 		if !ok {
 			continue
 		}
-		x, y := e.eval(bo.X), e.eval(bo.Y)
+		bo := struct {
+			Op token.Token
+		}{op}
+		x, y := e.eval(ox), e.eval(oy)
 		var g *term
 		var k int64
 		badSucc := -1
@@ -277,7 +280,7 @@ func guardsOf(p *Program, f *ssa.Function) []guard {
 		if !abortOnly[b.Succs[badSucc].Index] {
 			continue
 		}
-		out = append(out, guard{iff: iff, g: g, k: k, safeSucc: 1 - badSucc, pos: iff.Cond.Pos()})
+		out = append(out, guard{iff: iff, g: g, k: k, safeSucc: 1 - badSucc, pos: cpos})
 	}
 	return out
 }
@@ -287,8 +290,13 @@ func boundBy(t *term, g guard, max int64) bool {
 	if t.String() == g.g.String() {
 		return g.k <= max
 	}
-	if t.op == "shr" && len(t.args) == 2 && isK(t.args[1]) && t.args[0].String() == g.g.String() {
-		return g.k>>uint(t.args[1].c) <= max && g.k >= 0
+	// t == g >> s, also written as nested shifts ((g >> 2) >> 8)
+	sh := int64(0)
+	for u := t; u.op == "shr" && len(u.args) == 2 && isK(u.args[1]) && u.args[1].c >= 0; u = u.args[0] {
+		sh += u.args[1].c
+		if u.args[0].String() == g.g.String() {
+			return sh < 63 && g.k>>uint(sh) <= max && g.k >= 0
+		}
 	}
 	return false
 }
